@@ -154,7 +154,8 @@ class Report:
             lines.append('    %s:%s in %s [%s] %s\n    construct: %s' % (f.file, f.line, f.func, f.rule, f.detail, f.construct[:200]))
         for e in self.errors:
             lines.append('ANALYSIS-ERROR property=%s %s' % (self.pid, e))
-        status = 2 if self.errors else (1 if viol else 0)
+        # a located violation stands even when another part of the check could not be decided
+        status = 1 if viol else (2 if self.errors else 0)
         self.write_evidence(wall, viol, kf)
         print('\n'.join(lines))
         print('%s [%s] obligations=%d discharged=%d known-findings=%d violations=%d undecided=%d errors=%d wall=%.1fs'
